@@ -343,21 +343,21 @@ HSrv(e) ==
        LET waiting == {id \in DOMAIN q : q[id].st = "tosend" /\ q[id].tcp = (openfail = "tcp")}
            fresh == {t \in DOMAIN newtry : Live(t, 1) = {} /\ \A id \in DOMAIN q : q[id].t # t}
            wok == {id \in waiting : IF q[id].reqsrv # 0 THEN q[id].reqsrv = e.s ELSE FreshChoiceOk(e.s)}
-       IN IF waiting # {} THEN
-               IF wok = {} THEN Rej("c09.connection_attempt_not_to_best_server")
-               ELSE \E id \in wok :
+           fok == IF (cfg.usevc = 1) = (openfail = "tcp") /\ FreshChoiceOk(e.s) THEN fresh ELSE {}
+       IN \* which attempt failed cannot always be told from the trace (a query waiting to be re-sent and a request
+          \* just being started may both be candidates): every explanation is explored, one that is accepted suffices
+          IF waiting = {} /\ fresh = {} THEN OutOfScope
+          ELSE IF wok = {} /\ fok = {} THEN Rej("c09.connection_attempt_not_to_best_server")
+          ELSE \/ \E id \in wok :
                   /\ srv' = FailServer(e.s)
                   /\ q' = DropDoneProbes([q EXCEPT ![id] = Requeued(q[id], TRUE, "ECONNREFUSED")])
                   /\ openfail' = ""
                   /\ UNCHANGED <<cfg, now, fdi, owedF, owedO, proc, oos, toks, tcpin, newtry>> /\ Acc
-          ELSE IF fresh # {} /\ (cfg.usevc = 1) = (openfail = "tcp") THEN
-               IF ~FreshChoiceOk(e.s) THEN Rej("c09.connection_attempt_not_to_best_server")
-               ELSE \E t \in fresh :
+               \/ \E t \in fok :
                   /\ srv' = FailServer(e.s)
                   /\ newtry' = [newtry EXCEPT ![t] = @ + 1]
                   /\ openfail' = ""
                   /\ UNCHANGED <<cfg, now, fdi, q, owedF, owedO, proc, oos, toks, tcpin>> /\ Acc
-          ELSE OutOfScope
   ELSE IF proc.in /\ proc.nonfd /\ TimedOutCandidates(e.s) # {} THEN
        \* a query on this server reached its deadline: the server is demoted and the query requeued
        \E id \in TimedOutCandidates(e.s) :
